@@ -427,7 +427,7 @@ def run(P, R, tier):
                         R.ok('C18.c', g, c, f'{g.name} writes exactly the path it was given (the caller makes it unique per task)')
                     elif isinstance(a0, ast.Name):
                         g0, d0 = astq.unique_def(g, a0.id)
-                        if isinstance(d0, ast.AST) and (astq.names_in(d0) & set(g.params)):
+                        if isinstance(d0, ast.AST) and (astq.sources(g, d0) & set(g.params)):
                             nopen += 1
                             txt = norm(d0)
                             lossy = 'dirname(' in txt or '.parent' in txt or 'rsplit(' in txt or 'split(' in txt
